@@ -119,6 +119,27 @@ def project(st, c):
     }
 
 
+def classify(steps, c):
+    """Trace-level flags for the observers, computed from the behaviour itself (conservatively)."""
+    total = 0
+    max_ttl = 0
+    clients = set()
+    for s in steps:
+        if s["action"] == "SetBegin":
+            cl, k, cost, ttl = s["args"]
+            eff = (c["CostFn"] if (cost == 0 and c["CostFn"] != 0) else cost) + c["ItemSize"]
+            total += eff
+            max_ttl = max(max_ttl, ttl)
+        if s["args"] and s["action"] not in ("SweepCheck",) and isinstance(s["args"][0], int) and \
+                s["action"] in ("SetBegin", "DelBegin", "WaitCall", "Get", "GetTTL", "Iter", "SetMaxCost", "ClearCall", "ClosedOp"):
+            clients.add(s["args"][0])
+    lowers = any(s["action"] == "SetMaxCost" and s["args"][1] < c["InitMaxCost"] for s in steps)
+    ample = total <= min([c["InitMaxCost"]] + list(c["MaxCosts"])) and not lowers
+    hashes = [HASHFN[c["HashOf"]](k) for k in c["Keys"]]
+    coll = len(set(hashes)) < len(hashes)
+    return {"ample": ample, "ref": ample and len(clients) <= 1 and not coll, "coll": coll, "maxTTL": max_ttl}
+
+
 def behaviours_to_jsonl(files, out, c, start_id=1):
     n = 0
     steps_total = 0
@@ -126,6 +147,7 @@ def behaviours_to_jsonl(files, out, c, start_id=1):
         for fn in files:
             steps = vlib.parse_behaviour_file(fn)
             rec = {"id": start_id + n, "steps": []}
+            rec.update(classify(steps, c))
             for s in steps:
                 rec["steps"].append({"a": s["action"], "args": s["args"], "s": project(s["state"], c)})
             steps_total += len(rec["steps"]) - 1
@@ -143,8 +165,9 @@ OVERLAYS = {
 def simulate(ctx, consts, num, depth, name="sim", seed=None):
     """TLC -simulate on Ristretto.tla; returns (behaviour files, resolved constants, TLCResult)."""
     cfg, c = render_cfg(consts)
-    r = vlib.tlc(ctx, SPEC_FILES, "MCRistretto", cfg, name=name, workers=1, timeout=900,
-                 simulate={"num": num, "depth": depth, "file": "beh"}, seed=seed)
+    w = 8 if num >= 64 else 1          # `num` is per worker
+    r = vlib.tlc(ctx, SPEC_FILES, "MCRistretto", cfg, name=name, workers=w, timeout=900,
+                 simulate={"num": (num + w - 1) // w, "depth": depth, "file": "beh"}, seed=seed)
     if not r.ok:
         raise Inconclusive("simulation of Ristretto.tla failed: %s\n%s" % (r.error or r.violated, r.out[-1500:]))
     return vlib.list_behaviour_files(r.dir, "beh"), c, r
@@ -163,3 +186,67 @@ def replay(ctx, beh_jsonl, c, name="replay", metrics=True, race=False, timeout=1
     if rc != 0 or not os.path.exists(summ):
         raise Inconclusive("replay driver failed (rc=%s):\n%s" % (rc, out[-3000:]))
     return trace, json.load(open(summ)), d
+
+
+OBS_FILES = ["obs/ObsCache.tla", "obs/ObsCache.cfg"]
+
+
+def split_trace(trace, parts, outdir):
+    """Split an NDJSON trace at `New` events into at most `parts` files of similar size."""
+    segs = []
+    cur = []
+    with open(trace) as f:
+        for ln in f:
+            if '"ev":"New"' in ln and cur:
+                segs.append(cur)
+                cur = []
+            cur.append(ln)
+    if cur:
+        segs.append(cur)
+    total = sum(len(s) for s in segs)
+    parts = max(1, min(parts, len(segs)))
+    target = total / parts
+    files, acc, n = [], [], 0
+    for sg in segs:
+        acc.append(sg)
+        n += len(sg)
+        if n >= target and len(files) < parts - 1:
+            files.append(acc)
+            acc, n = [], 0
+    if acc:
+        files.append(acc)
+    paths = []
+    for i, chunk in enumerate(files):
+        p = os.path.join(outdir, "chunk%02d.ndjson" % i)
+        with open(p, "w") as f:
+            for sg in chunk:
+                f.writelines(sg)
+        paths.append(p)
+    return paths
+
+
+def observe(ctx, trace, name="observe", timeout=1800, parts=12):
+    """Validate a recorded trace with the TLA+ observers (TLC, one process per chunk of traces, in
+    parallel); returns (list of bad records with `at` relative to the chunk file and a `chunk` path, summary)."""
+    from concurrent.futures import ThreadPoolExecutor
+    base = ctx.sub(name)
+    chunks = split_trace(trace, parts, base)
+
+    def one(p):
+        d = os.path.join(base, os.path.basename(p)[:-7])
+        os.makedirs(d)
+        shutil.copy(p, os.path.join(d, "trace.ndjson"))
+        r = vlib.tlc(ctx, OBS_FILES, "ObsCache", "ObsCache.cfg", workers=1, timeout=timeout, workdir=d, heap="3g")
+        if not r.ok:
+            raise Inconclusive("observer run failed: %s\n%s" % (r.error or r.violated, r.out[-2500:]))
+        bad = vlib.obs_result(r.out)[0]
+        for b in bad:
+            b["chunk"] = p
+        return bad, r
+
+    with ThreadPoolExecutor(max_workers=len(chunks)) as ex:
+        res = list(ex.map(one, chunks))
+    bad = [b for bs, _ in res for b in bs]
+    r = res[0][1]
+    r.distinct = sum(x.distinct for _, x in res)
+    return bad, r
